@@ -213,6 +213,9 @@ def _program(version: str | None) -> dict[str, Any]:
         "name": "VerSvc",
         "methods": [
             {"name": "u", "kind": "unary", "params": [("a", ("int",))], "ret": ("int",), "u": {"logs": [], "act": ("echo", "a")}},
+            # methods taking an enum: a newer client may send a member this server cannot convert
+            {"name": "ue", "kind": "unary", "params": [("c", ("enum", "Color"))], "ret": ("int",), "u": {"logs": [], "act": ("return", 1)}},
+            {"name": "se", "kind": "producer", "params": [("c", ("enum", "Color"))], "header": False, "out_cols": ["i"], "init": {"logs": [], "act": ("ok",)}, "steps": [{"logs": [], "act": "emit_finish"}]},
             {
                 "name": "s",
                 "kind": "producer",
@@ -360,6 +363,28 @@ def run_shard(job: dict[str, Any]) -> dict[str, Any]:
             return _Obs(ok, err, r.status, ok)
 
         drivers = {"pipe_unary": pipe_unary, "pipe_stream": pipe_stream, "http_unary": http_unary, "http_stream": http_stream}
+        ue_schema, se_schema = infos["ue"].params_schema, infos["se"].params_schema
+
+        def badparam(path: str, v: bytes | None) -> _Obs:
+            """A request that is wrong twice: the version under test AND an enum member the server does not know."""
+            n0 = ninv()
+            meth, sch = ("ue", ue_schema) if path.endswith("unary") else ("se", se_schema)
+            body_ = httpdrv.request_body(meth, sch, {"c": "NO_SUCH_MEMBER"}, extra_md=md_of(v))
+            if path.startswith("pipe"):
+                ct.writer.write(body_)
+                if meth == "se":  # header-less stream: the client's input stream follows the request
+                    with ipc.new_stream(ct.writer, EMPTY):
+                        pass
+                _sch, bs = read_stream(ct.reader)
+                return _Obs(ninv() > n0, httpdrv.error_of(bs), None, False)
+            r = httpdrv.call(app, "POST", "/ue" if meth == "ue" else "/se/init", HDRS, body_)
+            try:
+                err = None
+                for bs in httpdrv.parse_ipc_multi(r.decoded_body()):
+                    err = err or httpdrv.error_of(bs)
+            except Exception:  # noqa: BLE001
+                return _Obs(ninv() > n0, None, r.status, False, raw=r.body[:200])
+            return _Obs(ninv() > n0, err, r.status, False)
 
         def witness(cat: str, v: bytes | None, extra: dict[str, Any] | None = None) -> dict[str, Any]:
             w = {"server_version": version, "client_value": v, "category": cat, "socket": sock_kind}
@@ -434,6 +459,21 @@ def run_shard(job: dict[str, Any]) -> dict[str, Any]:
                         "call refused although the reference gate admits it",
                         witness(cat, v, {"paths": wrong_refuse, "error": first.err and first.err["message"][:300], "status": first.status}),
                     )
+                # ---- a refusable version together with an unconvertible parameter: still the version refusal ----
+                if version is not None and not model.admits(version, v, "x") and idx % 3 == 0:
+                    for path in PATHS:
+                        o = badparam(path, v)
+                        chk.hit("refusable_version_with_bad_parameter_judged")
+                        chk.case(f"{path}:{rel}:refuse:with_unconvertible_parameter")
+                        err = o.err or {}
+                        if o.dispatched:
+                            chk.violation(f"dispatched_nonmatching_version:with_bad_parameter:{path}", "the method ran for a refusable version", witness(cat, v, {"path": path}))
+                        elif err.get("kind") != "protocol_version_mismatch" or (path.startswith("http") and o.status != 400):
+                            chk.violation(
+                                f"version_refusal_masked_by_parameter_error:{path.split('_')[0]}",
+                                "a request with a refusable protocol version and an unconvertible parameter was not answered with the protocol_version_mismatch refusal",
+                                witness(cat, v, {"path": path, "status": o.status, "type": err.get("type"), "kind": err.get("kind"), "message": (err.get("message") or "")[:200]}),
+                            )
                 # ---- refusal quality --------------------------------------------------------
                 refusals = {p: o for p, o in obs.items() if o.err is not None and not o.dispatched and not model.admits(version, v, "x")}
                 for path, o in refusals.items():
@@ -560,6 +600,7 @@ def main(tier: str, seed: int) -> int:
         "socket_http_compared",
         "describe_exempt",
         "undeclared_never_checks",
+        "refusable_version_with_bad_parameter_judged",
     )
     chk.assumptions = [
         "reference gate lib/models/semver_gate.py (ASCII digits, no leading zeros, nothing around MAJOR.MINOR.PATCH)",
